@@ -93,9 +93,9 @@ func init() {
 	Specs["C08"] = Spec{
 		Gen: func(seed uint64, tier string) *Case {
 			if seed%3 == 0 {
-				return GenConc(seed, "C08", ConcParams{MinClients: 2, MaxClients: 3, MaxTxns: 40, OpAtomic: 30, Rotate: true, Abandon: true})
+				return GenConc(seed, "C08", ConcParams{MinClients: 2, MaxClients: 3, MaxTxns: 40, OpAtomic: 30, Rotate: true, Abandon: true, PanicAbandon: true})
 			}
-			return GenSeq(seed, "C08", SeqParams{MinTxns: 10, MaxTxns: 100, Small: true, Restarts: true, Abandon: true, Misuse: true})
+			return GenSeq(seed, "C08", SeqParams{MinTxns: 10, MaxTxns: 100, Small: true, Restarts: true, Abandon: true, PanicAbandon: true, Misuse: true})
 		},
 		Check: func(res *RunResult) *Eval {
 			ev := newEval()
